@@ -39,7 +39,13 @@ class Property:
                 for l in open(os.path.join(d, f)):
                     l = l.strip()
                     if l and not l.startswith("#"):
-                        out.append(Case(l, tags=("corpus",)))
+                        # optional prefixes: `@nocorr ` (no model counterpart), `@noprop ` (no oracle)
+                        corr = prop = True
+                        while l.startswith("@"):
+                            flag, l = l.split(" ", 1)
+                            corr = corr and flag != "@nocorr"
+                            prop = prop and flag != "@noprop"
+                        out.append(Case(l, corr=corr, prop=prop, tags=("corpus",)))
         return out
 
     def gen(self, rng, tier):
